@@ -27,7 +27,13 @@ pub fn make_binder(module: &str, inst: &J, init: &J) -> B {
     }
 }
 
-pub fn cmd_drive(_args: &[String]) {
-    eprintln!("drive: not implemented yet");
-    std::process::exit(2);
+/// conform drive <module> <seed> <runs> <steps> <out.ndjson>
+pub fn cmd_drive(args: &[String]) {
+    let seed: u64 = args[1].parse().unwrap();
+    let runs: usize = args[2].parse().unwrap();
+    let steps: usize = args[3].parse().unwrap();
+    match args[0].as_str() {
+        "Gateway" => crate::drive_gateway::drive(seed, runs, steps, &args[4]),
+        m => panic!("no driver for module {m}"),
+    }
 }
